@@ -147,6 +147,9 @@ func runC16(c *Ctx) {
 	c.floor("executors", 60)
 	c.count("multi-call-executors", n)
 	ruleStoreAtomicity(c)
+	// a reply serialized into storage shared between connections can be overwritten by another
+	// client's reply before it is written: the value a client reads is then one nobody stored
+	ruleReplyBufferLocal(c, "R16.c")
 	c.assume("each single handler call is atomic only if the handler makes it so (R16.b checks the bundled example store)")
 }
 
